@@ -730,7 +730,22 @@ impl<T: TypeConfig> RaftRoleState for LeaderState<T> {
     }
 
     fn next_deadline(&self) -> Instant {
-        self.timer.next_deadline()
+        // tick() is the only place that answers expired pending requests, and the replication
+        // timer is pushed out by every batch that is sent: under steady write traffic it never
+        // fired, so a leader without quorum answered nothing until the traffic paused. Wake up
+        // for the earliest pending deadline as well. The maps are ordered by log / read index,
+        // and deadlines grow with insertion order, so the first entry carries the earliest one.
+        let mut deadline = self.timer.next_deadline();
+        let pending = [
+            self.pending_client_writes.values().next().map(|m| m.deadline),
+            self.pending_reads.values().next().map(|b| b.deadline),
+            self.pending_lease_reads.front().map(|r| r.deadline),
+            self.pending_commit_actions.values().next().map(|e| e.deadline),
+        ];
+        for d in pending.into_iter().flatten() {
+            deadline = deadline.min(d);
+        }
+        deadline
     }
 
     /// Trigger heartbeat now
